@@ -421,6 +421,11 @@ main()
 {
     BaseDir = "/tmp/verif-rr-" + std::to_string(getpid());
     cleanStale();
+    if (!getenv("VERIF_RR_DEBUG")) {
+        // the unit-test stubs linked from /repo report every call on stderr ("SKIP: ... (not implemented)")
+        const int nul = open("/dev/null", O_WRONLY);
+        if (nul >= 0) { dup2(nul, 2); close(nul); }
+    }
     startup();
     std::string line;
     while (std::getline(std::cin, line)) {
